@@ -655,11 +655,6 @@ func (s *Store) openCollection(
 			return nil, erro
 		}
 
-		if storeSnapshotInit != nil {
-			storeSnapshotInit.Close()
-			storeSnapshotInit = nil
-		}
-
 		return ss, erro
 	}
 
